@@ -13,9 +13,11 @@ Lemma decorrelated_envelope base max prev r :
   0 <= base -> base <= max -> (forall p, prev = Some p -> 0 <= p) -> 0 <= r -> r < 1 ->
   0 <= decorrelated base max prev r /\ decorrelated base max prev r <= max.
 Proof.
-  intros B M P R0 R1. unfold decorrelated. split; [|apply Q.le_min_l].
-  apply Q.min_glb; [lra|].
+  intros B M P R0 R1. unfold decorrelated.
   set (p := match prev with Some p => if Qeq_bool p 0 then base else p | None => base end).
+  destruct (Qle_bool float_top (p * 3)); [split; lra|].
+  split; [|apply Q.le_min_l].
+  apply Q.min_glb; [lra|].
   assert (Pp: 0 <= p).
   { unfold p. destruct prev as [q|]; [|exact B]. destruct (Qeq_bool q 0); [exact B|apply P; reflexivity]. }
   destruct (Qlt_le_dec (p * 3) base) as [L|L].
